@@ -279,6 +279,7 @@ func (s *memoryStore) UpdateNodePeers(nodeID store.NodeID, peers []string, block
 	now := time.Now()
 	node.LastSeen = now
 	node.BlockNumber = blockNumber
+	s.nodes[nodeID] = node // A node that lists itself sees its own fresh check-in, same as the persistent driver.
 
 	for _, peer := range peers {
 		// Only update peers we already know about
